@@ -32,17 +32,18 @@ func (a *actx) GetCaptureInfo() gopacket.CaptureInfo { return a.ci }
 
 // rrun is the harness state of one history on the reassembly assembler.
 type rrun struct {
-	c        *vlib.Ctx
-	h        *asm.History
-	byKey    map[dirKey][2]int
-	logs     map[[2]int]*asm.FeedLog
-	cc       asm.CallCtx
-	streams  []*rstream
-	viol     func(key, desc string)
-	keepRand *vlib.Rand
-	keepPct  int
-	refuse   bool // streams refuse removal (ReassemblyComplete returns false)
+	c         *vlib.Ctx
+	h         *asm.History
+	byKey     map[dirKey][2]int
+	logs      map[[2]int]*asm.FeedLog
+	cc        asm.CallCtx
+	streams   []*rstream
+	viol      func(key, desc string)
+	keepRand  *vlib.Rand
+	keepPct   int
+	refuse    bool // streams refuse removal (ReassemblyComplete returns false)
 	onDeliver func(s *rstream, dir int, skip int, seen time.Time)
+	noContent bool
 }
 
 type rstream struct {
@@ -61,6 +62,8 @@ func (r *rrun) New(netFlow, tcpFlow gopacket.Flow, tcp *layers.TCP, ac reassembl
 	s := &rstream{r: r, id: len(r.streams), conn: -1}
 	if ok {
 		s.conn, s.c2s = cd[0], cd[1]
+	}
+	if ok && !r.noContent {
 		for d := 0; d < 2; d++ {
 			s.chk[d] = asm.NewDirChecker(r.h.Conns[s.conn].S[d], r.logs[[2]int{s.conn, d}], r.cc.Call)
 		}
@@ -92,6 +95,12 @@ func (s *rstream) ReassembledSG(sg reassembly.ScatterGather, ac reassembly.Assem
 		s.r.onDeliver(s, d, skip, sg.CaptureInfo(saved).Timestamp)
 	}
 	chk := s.chk[d]
+	if chk == nil {
+		if s.r.keepPct > 0 && s.r.keepRand.Intn(100) < s.r.keepPct && !end {
+			sg.KeepFrom(s.r.keepRand.Range(0, avail))
+		}
+		return
+	}
 	if debugDeliveries {
 		fmt.Printf("call %d stream %d conn %d dir %d: skip=%d start=%v end=%v saved=%d avail=%d pos=%d\n", s.r.cc.Call, s.id, s.conn, d, skip, start, end, saved, avail, chk.Pos())
 	}
